@@ -250,8 +250,8 @@ def compare_traj(got, exp, rtol=1e-7, label=''):
     exp = np.asarray(exp, dtype=float)
     if got.shape != exp.shape:
         return f"{label}shape {got.shape} != expected {exp.shape}"
-    if not np.all(np.isfinite(exp)):
-        return 'discard'
+    if not np.all(np.isfinite(exp)) or (exp.size and float(np.max(np.abs(exp))) > 1e4):
+        return 'discard'        # blow-up: the comparison would measure amplified rounding noise
     for j in range(exp.shape[1]):
         scale = max(1.0, float(np.max(np.abs(exp[:, j]))))
         err = np.abs(got[:, j] - exp[:, j])
